@@ -8,6 +8,10 @@ Require Export MTX.Model.C35_PreAuth.
 Import ListNotations.
 Local Open Scope Z_scope.
 
+(* long generated strings are shipped run-length encoded: rp n u = u repeated n times *)
+Fixpoint rp_nat (n : nat) (u : list Z) : list Z := match n with O => [] | S k => u ++ rp_nat k u end.
+Definition rp (n : Z) (u : list Z) : list Z := rp_nat (Z.to_nat n) u.
+
 (* what one request produced: a panic (caught by the driver's recover), or the HTTP status, the
    (Name, Publish) of every path-manager call in order, and a tag (front-end specific, 0 by default) *)
 Inductive obs :=
